@@ -139,7 +139,10 @@ type compiler struct {
 	Optimize    bool
 	Returns     []int
 	FuncName    string
+	depth       int
 }
+
+const maxCompileDepth = 10000 // each level is a Go stack frame; an unbounded depth overflows the Go stack, which no recover can catch
 
 func compilePkgs(g *lookup, pkgs []*token, optimize bool) (ins []instruction, slots int, err error) {
 	locals := newLookup()
@@ -308,6 +311,9 @@ func (c *compiler) compile(tok *token) []instruction {
 		panicf("missing operand")
 	}
 	c.cur = tok
+	if c.depth++; c.depth > maxCompileDepth {
+		panicf("nested too deeply")
+	}
 	var res []instruction
 	switch tok.Symbol {
 	case "(int)":
@@ -881,6 +887,7 @@ func (c *compiler) compile(tok *token) []instruction {
 		}
 		res[n].Pos = newPos(c.Globals, tok.Pos.Filename, c.FuncName, tok.Pos.Line, tok.Pos.Column)
 	}
+	c.depth--
 	return res
 }
 
